@@ -22,6 +22,31 @@ type Node struct {
 	NameOnCT                                        bool   // file name given only as Content-Type name=
 	Content                                         []byte // decoded content
 	boundary                                        string
+	Spell                                           int // how the MIME header names of this entity are spelled (0: canonical)
+}
+
+// hn spells a MIME header name the way mail software does: Content-Type, Content-type (PHP mail()), content-type, CONTENT-TYPE
+func hn(name string, spell int) string {
+	switch spell {
+	case 1:
+		p := strings.Split(name, "-")
+		for i := 1; i < len(p); i++ {
+			p[i] = strings.ToLower(p[i])
+		}
+		return strings.Join(p, "-")
+	case 2:
+		return strings.ToLower(name)
+	case 3:
+		return strings.ToUpper(name)
+	}
+	return name
+}
+
+func pickSpell(rng *hx.Rng) int {
+	if rng.Chance(80) {
+		return 0
+	}
+	return 1 + rng.Intn(3)
 }
 
 var textTypes = []string{"text/plain", "text/plain", "text/html", "text/calendar"}
@@ -83,7 +108,7 @@ func sizePick(rng *hx.Rng) int {
 var wsPool [][]byte
 
 func GenLeaf(rng *hx.Rng) *Node {
-	n := &Node{}
+	n := &Node{Spell: pickSpell(rng)}
 	size := sizePick(rng)
 	if rng.Chance(65) {
 		n.CType = rng.Pick(textTypes)
@@ -143,7 +168,7 @@ func Gen(rng *hx.Rng, depth int) *Node {
 	if depth <= 0 || rng.Chance(35) {
 		return GenLeaf(rng)
 	}
-	n := &Node{Multi: true, Subtype: rng.Pick([]string{"mixed", "alternative", "related", "mixed"})}
+	n := &Node{Multi: true, Subtype: rng.Pick([]string{"mixed", "alternative", "related", "mixed"}), Spell: pickSpell(rng)}
 	k := 1 + rng.Intn(4)
 	for i := 0; i < k; i++ {
 		n.Children = append(n.Children, Gen(rng, depth-1))
@@ -200,10 +225,10 @@ func (n *Node) partHeaders() string {
 	if n.Multi {
 		bcount++
 		n.boundary = fmt.Sprintf("=_gen_%d_%s", bcount, n.Subtype)
-		sb.WriteString(fmt.Sprintf("Content-Type: multipart/%s;\r\n boundary=\"%s\"\r\n", n.Subtype, n.boundary))
+		sb.WriteString(fmt.Sprintf("%s: multipart/%s;\r\n boundary=\"%s\"\r\n", hn("Content-Type", n.Spell), n.Subtype, n.boundary))
 		return sb.String()
 	}
-	ct := "Content-Type: " + n.CType
+	ct := hn("Content-Type", n.Spell) + ": " + n.CType
 	if n.Charset != "" {
 		ct += "; charset=" + n.Charset
 	}
@@ -212,13 +237,13 @@ func (n *Node) partHeaders() string {
 	}
 	sb.WriteString(ct + "\r\n")
 	if n.CTE != "" {
-		sb.WriteString("Content-Transfer-Encoding: " + n.CTE + "\r\n")
+		sb.WriteString(hn("Content-Transfer-Encoding", n.Spell) + ": " + n.CTE + "\r\n")
 	}
 	if n.CID != "" {
-		sb.WriteString("Content-ID: " + n.CID + "\r\n")
+		sb.WriteString(hn("Content-ID", n.Spell) + ": " + n.CID + "\r\n")
 	}
 	if n.Disposition != "" {
-		d := "Content-Disposition: " + n.Disposition
+		d := hn("Content-Disposition", n.Spell) + ": " + n.Disposition
 		if n.Filename != "" {
 			d += fmt.Sprintf("; filename=\"%s\"", n.Filename)
 		}
@@ -281,7 +306,7 @@ func (n *Node) Serialize(top []string) string {
 	for _, l := range top {
 		sb.WriteString(l + "\r\n")
 	}
-	sb.WriteString("MIME-Version: 1.0\r\n")
+	sb.WriteString(hn("MIME-Version", n.Spell) + ": 1.0\r\n")
 	sb.WriteString(n.partHeaders())
 	sb.WriteString("\r\n")
 	sb.WriteString(n.body())
